@@ -740,11 +740,12 @@ func (e *Enc) typeFactOr(v string, t types.Type, st *State) string {
 	return e.typeFact(v, t, st)
 }
 
-var purePkgs = map[string]bool{"strings": true, "strconv": true, "math": true, "unicode": true, "unicode/utf8": true, "math/bits": true, "path/filepath": true, "regexp": true}
+var purePkgs = map[string]bool{"strings": true, "strconv": true, "math": true, "unicode": true, "unicode/utf8": true, "math/bits": true, "path/filepath": true, "regexp": true, "net/url": true}
 
 // pureOnly: packages of which only the listed functions are pure (the others read the process state: cwd, environment)
 var pureOnly = map[string]map[string]bool{"path/filepath": {"Base": true, "Clean": true, "Dir": true, "Ext": true, "IsAbs": true, "Match": true, "Rel": true, "ToSlash": true, "FromSlash": true, "VolumeName": true},
-	"regexp": {"MatchString": true, "QuoteMeta": true}}
+	"regexp": {"MatchString": true, "QuoteMeta": true},
+	"net/url": {"QueryEscape": true, "QueryUnescape": true, "PathEscape": true, "PathUnescape": true}}
 
 // pureExternal: a package-level function of a pure standard-library package whose parameters and results are
 // strings, booleans, numbers (or a trailing error result).
